@@ -40,6 +40,12 @@ func genC15(r *simrt.RNG, tier string, variant int) Plan {
 				op.Kind = "call"
 				op.Size = Pick(r, []int{0, 100, 5000, 20500})
 				op.Err = r.Bool(0.1)
+				if r.Bool(0.3) {
+					// an un-gated call whose caller cancels it around the time it completes:
+					// the cancel may reach the server after the call has finished
+					op.Kind = "ctx"
+					op.Cancel = 1 + Pick(r, []int{0, 1, 3, 8, 20})
+				}
 			case x < 6:
 				op.Kind = "notify"
 			case x < 8:
@@ -62,6 +68,11 @@ func genC15(r *simrt.RNG, tier string, variant int) Plan {
 		cause = endCauses[variant%len(endCauses)]
 	}
 	p.Faults = []Fault{{Kind: cause, Client: 0, Pipe: 0, Dir: Pick(r, []string{"c2s", "s2c"}), Frame: -1, Phase: Pick(r, []int{0, 2, 10, 50})}}
+	if r.Bool(0.25) {
+		// the peer stops reading: server writes on connection 0 block (full send
+		// buffer) from now on; the connection must still be let go of
+		p.Params["wstall"] = 1
+	}
 	p.Params["react_ms"] = Pick(r, []int64{0, 1, 500, 60000, 400000})
 	if variant >= 0 {
 		p.Params["react_ms"] = []int64{0, 1, 500, 60000, 400000}[(variant/4)%5]
@@ -140,7 +151,27 @@ func runC15(e *Env, p *Plan) {
 		return
 	}
 	gates := []chan struct{}{}
+	var cancels []context.CancelFunc
+	defer func() {
+		for _, c := range cancels {
+			c()
+		}
+	}()
 	for _, op := range p.Ops {
+		op := op
+		if op.Kind == "ctx" {
+			ctx, cancel := context.WithCancel(context.Background())
+			cancels = append(cancels, cancel)
+			w.Start(op, ctx)
+			e.S.Go("cancel-"+itoa(op.Tok), func() {
+				for i := 1; i < op.Cancel; i++ {
+					simrt.Yield("cancel-delay")
+				}
+				e.Probe("caller-cancels")
+				cancel()
+			})
+			continue
+		}
 		t := w.Register(op)
 		if op.Kind != "sub" || op.Hold {
 			g := make(chan struct{})
@@ -158,6 +189,10 @@ func runC15(e *Env, p *Plan) {
 	}
 	if !e.S.Settle(200 * time.Millisecond) {
 		return
+	}
+	if p.Param("wstall", 0) > 0 {
+		e.N.Inject(0, "wstall", "s2c", 0)
+		e.Probe("peer-stopped-reading")
 	}
 	if len(p.Faults) == 0 {
 		for _, g := range gates {
